@@ -5,7 +5,7 @@ import itertools
 import json
 import numpy as np
 
-from .. import canon
+from .. import canon, gen
 from ..core import call_real
 
 ID = "C12"
@@ -83,8 +83,9 @@ def cases(rng, tier):
         n = rng.randint(1, 4)
         m = rng.randint(0, 4)
         prog = _rand_prog(rng, n, m, rng.randint(1, 16))
+        qregs = gen.rand_regs(rng, n) if (n > 1 and rng.random() < 0.4) else None   # several quantum registers
         for w in PASSES:
-            yield ("pass", {"nq": n, "ncl": m, "prog": prog, "which": w})
+            yield ("pass", {"nq": n, "ncl": m, "prog": prog, "which": w, "qregs": qregs})
     if tier == "thorough":
         # bounded-exhaustive family named in the property's quantifier (validation of the model against the code)
         for L in range(1, 6):
@@ -99,7 +100,8 @@ def cases(rng, tier):
 
 
 def _circ(payload):
-    return canon.build_circuit({"nq": payload["nq"], "cregs": [["c", payload["ncl"]]] if payload["ncl"] else [], "instrs": payload["prog"]})
+    return canon.build_circuit({"nq": payload["nq"], "qregs": payload.get("qregs"), "cregs": [["c", payload["ncl"]]] if payload["ncl"] else [],
+                                "instrs": payload["prog"]})
 
 
 def _apply(qc, which):
